@@ -7,7 +7,7 @@
    n <= k <= m).  Partial: the transport to the code's is_match is C01 (proved on the fragment with
    fixed-length repeats); otherwise decided by rewriting generated patterns and comparing both
    spellings on the code and on the model. *)
-From RX Require Import Base.Prelude Spec.Syntax Spec.Sem Proofs.LeafFacts Proofs.QuantFacts Proofs.QuantLaws.
+From RX Require Import Base.Prelude Spec.Syntax Spec.Sem Proofs.LeafFacts Proofs.QuantFacts Proofs.QuantLaws Model.Op Model.Engine Model.Matcher Model.Compiler Proofs.GroupGrammar Proofs.GroupSpec Proofs.GroupLaws.
 
 Theorem C20_wrap_noncapturing_spec : forall fl s r i, ends fl s (RNc r) i = ends fl s r i.
 Proof. exact law_nc. Qed.
@@ -43,6 +43,30 @@ Theorem C20_class_alt_spec : forall fl s x y, s_i fl = false ->
   same_lang fl s (RCls (CGroup false [IChar x; IChar y] None)) (RNc (RAlt [RChar x; RChar y])).
 Proof. exact law_class_alt. Qed.
 
+(* two of the laws at the level the property is stated at - pattern text in, verdict of the model's
+   compiled program out - on the grammar of Proofs/GroupGrammar.v: spelling every c+ of a pattern as
+   cc* (c+? as cc*?), or every c? as (c|), gives a pattern that compiles too and has the same
+   verdict on every input *)
+Theorem C20_plus_law_end_to_end_partial :
+  forall fl a input,
+    ok_a (f_xpath fl) a = true -> f_literal fl = false -> f_ws fl = false -> (N.of_nat (length input) < umax)%N ->
+    exists prog prog', compile true fl (show_a a) = Ok prog /\ compile true fl (show_a (plus_a a)) = Ok prog'
+      /\ match matches prog input 0 st0, matches prog' input 0 st0 with
+         | MTrue _, MTrue _ | MFalse _, MFalse _ => True
+         | _, _ => False
+         end.
+Proof. exact plus_law_end_to_end. Qed.
+
+Theorem C20_optional_law_end_to_end_partial :
+  forall fl a input,
+    ok_a (f_xpath fl) a = true -> f_literal fl = false -> f_ws fl = false -> (N.of_nat (length input) < umax)%N ->
+    exists prog prog', compile true fl (show_a a) = Ok prog /\ compile true fl (show_a (opt_a a)) = Ok prog'
+      /\ match matches prog input 0 st0, matches prog' input 0 st0 with
+         | MTrue _, MTrue _ | MFalse _, MFalse _ => True
+         | _, _ => False
+         end.
+Proof. exact opt_law_end_to_end. Qed.
+
 Print Assumptions C20_wrap_noncapturing_spec.
 Print Assumptions C20_group_to_noncapturing_spec.
 Print Assumptions C20_alt_idempotent_spec.
@@ -55,3 +79,5 @@ Print Assumptions C20_bounded_spec.
 Print Assumptions C20_distribute_spec.
 Print Assumptions C20_char_class_spec.
 Print Assumptions C20_class_alt_spec.
+Print Assumptions C20_plus_law_end_to_end_partial.
+Print Assumptions C20_optional_law_end_to_end_partial.
